@@ -96,6 +96,9 @@ GENERATION_NUMBER_V1_MAX = 0x3FFFFFFF
 
 # Parent encoding constants
 GRAPH_PARENT_MISSING = 0x70000000
+# A parent that exists but is not part of the graph file (git's
+# GRAPH_PARENT_MISSING); GRAPH_PARENT_MISSING above marks "no parent"
+GRAPH_PARENT_NOT_IN_GRAPH = 0x7FFFFFFF
 GRAPH_PARENT_NONE = 0x70000000
 GRAPH_EXTRA_EDGES_NEEDED = 0x80000000
 GRAPH_LAST_EDGE = 0x80000000
@@ -126,6 +129,9 @@ class CommitGraphEntry:
         self.parents = parents
         self.generation = generation
         self.commit_time = commit_time
+        # False if a parent of the commit is not part of the graph file, in
+        # which case ``parents`` is incomplete
+        self.parents_complete = True
 
     def __repr__(self) -> str:
         """Return string representation of CommitGraphEntry."""
@@ -299,19 +305,27 @@ class CommitGraph:
 
             # Parse parents
             parents = []
+            parents_complete = True
             if parent1_pos < GRAPH_PARENT_MISSING:
                 if parent1_pos >= len(oids):
                     raise ValueError(f"Invalid parent1 position: {parent1_pos}")
                 parents.append(oids[parent1_pos])
+            elif parent1_pos == GRAPH_PARENT_NOT_IN_GRAPH:
+                parents_complete = False
 
             if parent2_pos < GRAPH_PARENT_MISSING:
                 if parent2_pos >= len(oids):
                     raise ValueError(f"Invalid parent2 position: {parent2_pos}")
                 parents.append(oids[parent2_pos])
+            elif parent2_pos == GRAPH_PARENT_NOT_IN_GRAPH:
+                parents_complete = False
             elif parent2_pos >= GRAPH_EXTRA_EDGES_NEEDED:
                 # Handle extra edges (3+ parents)
                 edge_index = parent2_pos & ~GRAPH_EXTRA_EDGES_NEEDED
-                parents.extend(self._parse_extra_edges(edge_index, oids))
+                extra = self._parse_extra_edges(edge_index, oids)
+                if any(p is None for p in extra):
+                    parents_complete = False
+                parents.extend(p for p in extra if p is not None)
 
             entry = CommitGraphEntry(
                 commit_id=sha_to_hex(oids[i]),
@@ -320,12 +334,15 @@ class CommitGraph:
                 generation=generation,
                 commit_time=commit_time,
             )
+            entry.parents_complete = parents_complete
             self.entries.append(entry)
 
     def _parse_extra_edges(
         self, index: int, oids: Sequence[RawObjectID]
-    ) -> list[RawObjectID]:
+    ) -> list[RawObjectID | None]:
         """Parse extra parent edges for commits with 3+ parents.
+
+        A parent that is not part of the graph file is returned as None.
 
         Args:
           index: Position in the extra edge list, as stored in the commit
@@ -337,21 +354,21 @@ class CommitGraph:
             return []
 
         edge_data = self.chunks[CHUNK_EXTRA_EDGE_LIST].data
-        parents = []
+        parents: list[RawObjectID | None] = []
 
         offset = index * 4
         while offset + 4 <= len(edge_data):
             parent_pos = struct.unpack(">L", edge_data[offset : offset + 4])[0]
             offset += 4
 
-            if parent_pos & GRAPH_LAST_EDGE:
-                parent_pos &= ~GRAPH_LAST_EDGE
-                if parent_pos < len(oids):
-                    parents.append(oids[parent_pos])
+            last = bool(parent_pos & GRAPH_LAST_EDGE)
+            parent_pos &= ~GRAPH_LAST_EDGE
+            if parent_pos < len(oids):
+                parents.append(oids[parent_pos])
+            elif parent_pos == GRAPH_PARENT_NOT_IN_GRAPH:
+                parents.append(None)
+            if last:
                 break
-            else:
-                if parent_pos < len(oids):
-                    parents.append(oids[parent_pos])
 
         return parents
 
@@ -377,7 +394,11 @@ class CommitGraph:
     def get_parents(self, oid: ObjectID) -> list[ObjectID] | None:
         """Get parent commit IDs for a commit."""
         entry = self.get_entry_by_oid(oid)
-        return entry.parents if entry else None
+        if entry is None or not entry.parents_complete:
+            # unknown to the graph, or a parent lies outside it: the caller
+            # has to read the commit itself
+            return None
+        return entry.parents
 
     def write_to_file(self, f: BinaryIO | _GitFile) -> None:
         """Write commit graph to file."""
@@ -407,18 +428,26 @@ class CommitGraph:
                 parent1_pos = GRAPH_PARENT_MISSING
                 parent2_pos = GRAPH_PARENT_MISSING
             elif len(entry.parents) == 1:
-                parent1_pos = oid_to_index.get(entry.parents[0], GRAPH_PARENT_MISSING)
+                parent1_pos = oid_to_index.get(
+                    entry.parents[0], GRAPH_PARENT_NOT_IN_GRAPH
+                )
                 parent2_pos = GRAPH_PARENT_MISSING
             elif len(entry.parents) == 2:
-                parent1_pos = oid_to_index.get(entry.parents[0], GRAPH_PARENT_MISSING)
-                parent2_pos = oid_to_index.get(entry.parents[1], GRAPH_PARENT_MISSING)
+                parent1_pos = oid_to_index.get(
+                    entry.parents[0], GRAPH_PARENT_NOT_IN_GRAPH
+                )
+                parent2_pos = oid_to_index.get(
+                    entry.parents[1], GRAPH_PARENT_NOT_IN_GRAPH
+                )
             else:
                 # More than 2 parents: the second slot points into the extra
                 # edge list, which holds parents 2..n (the last one flagged)
-                parent1_pos = oid_to_index.get(entry.parents[0], GRAPH_PARENT_MISSING)
+                parent1_pos = oid_to_index.get(
+                    entry.parents[0], GRAPH_PARENT_NOT_IN_GRAPH
+                )
                 parent2_pos = GRAPH_EXTRA_EDGES_NEEDED | (len(extra_edges) // 4)
                 rest = [
-                    oid_to_index.get(p, GRAPH_PARENT_MISSING)
+                    oid_to_index.get(p, GRAPH_PARENT_NOT_IN_GRAPH)
                     for p in entry.parents[1:]
                 ]
                 rest[-1] |= GRAPH_LAST_EDGE
